@@ -18,7 +18,8 @@ RULE = ("(api) API-built sets: 1-2 languages with codes from a pool including qu
         "size / write_inline_positioning / force; the three DFXP writers. (corpus) every "
         "caption set any reader returns for the 162 documents shipped in examples/ and "
         "tests/fixtures, x 3 writers x options. (readers) caption sets read from generated "
-        "DFXP/SAMI/WebVTT/SRT/MicroDVD documents (C04 generators). Output parsed with "
+        "DFXP/SAMI/WebVTT/SRT/MicroDVD documents (C04 generators) and generated SCC pop-on "
+        "programs (C05 generator). Output parsed with "
         "lxml.etree without recovery. Non-trivial: an attribute-position string contains one of "
         "& < > \" ', or >= 2 regions, or >= 2 languages, or STYLE nodes present.")
 ASSUMPTIONS = [
@@ -303,9 +304,11 @@ def _set_has_meta_attr(cs):
 
 def readers_strategy(tier):
     from . import c04
+    from ..ref import sccprog as SP
+    scc = SP.program_strategy(max_captions=3).map(lambda p: {"fmt": "scc", "prog": p})
     return st.fixed_dictionaries({
         "doc": st.one_of(c04.dfxp_strategy(tier), c04.sami_strategy(tier), c04.webvtt_strategy(tier),
-                         c04.plain_strategy(tier)),
+                         c04.plain_strategy(tier), scc),
         "writer": st.sampled_from(sorted(WRITERS)),
         "opt": st.integers(0, len(OPTION_GRID) - 1),
     })
@@ -315,9 +318,14 @@ def check_readers(case, rec):
     from . import c04
     d = case["doc"]
     try:
-        doc, reader = c04.build_doc(d)
+        if d["fmt"] == "scc":
+            from ..ref import sccprog as SP
+            from pycaption import SCCReader as reader
+            doc = SP.to_scc(d["prog"])
+        else:
+            doc, reader = c04.build_doc(d)
         cs = reader().read(doc)
-    except Exception:  # noqa  (reading is judged by C04; here only readable documents matter)
+    except Exception:  # noqa  (reading is judged by C04/C05; here only readable documents matter)
         rec.label("unreadable")
         return
     _check_set(cs, case["writer"], OPTION_GRID[case["opt"]], f"generated {d['fmt']} document", rec)
